@@ -146,3 +146,24 @@ PROPS["C14"] = {
                   "the colon of a header); an empty body file may decode to the empty or to the default body",
     "assumptions": ["callers pass a fresh Target to every call (ReadAllTargets and the attacker do)"],
 }
+
+PROPS["C19"] = {
+    "title": "Command-line values mean what the manual says",
+    "units": [{"name": "flags", "pkg": "main", "run": "^TestC19"},
+              {"name": "resolver", "pkg": "resolver", "run": "^TestC19", "shards_quick": 1, "shards_thorough": 4}],
+    "rule": "rapid constructs flag values from an abstract meaning: -rate N[/D] with N in [1,2^62], D absent / bare "
+            "unit / multiple / compound, the words 0 and infinity, malformed values; repeated -header lines with "
+            "arbitrary spacing and case; -max-body in every README notation incl. values around the int64 overflow "
+            "boundary of each unit; repeated -connect-to tuples; -dns-ttl; -resolvers lists. The real attack command "
+            "flag set is run with an empty targets file to observe the -max-workers demand. Non-trivial = value with a "
+            "non-default unit/notation, a special word, or a repeated flag; distinct = distinct flag text(s).",
+    "explanation": "Oracle: the stored value equals the abstract meaning the text was built from (Rate{N,D}; unlimited "
+                   "pacer for 0/infinity and the command's refusal without -max-workers; header map in flag order with "
+                   "exact key case; bytes as powers of 1024, overflow rejected; connect-to map in flag order; ttl; "
+                   "normalised resolver addresses with default port 53); String() output parses back to the same value; "
+                   "malformed values are rejected.",
+    "technique": "constructive property test: values rendered from an abstract meaning, parsed by the flag types, compared with the meaning (rapid)",
+    "level_text": "generated-input search over flag texts built from their intended meaning; cannot prove absence",
+    "level_note": "only clearly malformed values are required to be rejected; a leading '+' on N may be accepted or rejected",
+    "assumptions": [],
+}
